@@ -196,6 +196,10 @@ structure Call (V : Type) where
   passed : List (Arg V)
   result : List (Arg V)     -- one element, except for `evaluate` (a tuple)
 
+/-- call the wrapped function on `passed` and wrap its value with dimension `d` -/
+def call1 {V} (op : List (Arg V) → V) (d : Pows) (passed : List (Arg V)) : Call V :=
+  { passed := passed, result := [wrap d (op passed)] }
+
 /-- `Quantity.__unpack(*sel)`: asserts that at least one selected argument is a Quantity -/
 def unpackOk {V} (sel : List (Arg V)) : Bool := sel.any Arg.isQ
 
@@ -204,36 +208,35 @@ def unpackOk {V} (sel : List (Arg V)) : Bool := sel.any Arg.isQ
 return value of `evaluate` into its components. -/
 def apply {V} (k : Kind) (op : List (Arg V) → V) (tuple : V → List V) (expo : Arg V → Option Rat) (args : List (Arg V)) :
     Except Err (Call V) :=
-  let call1 (d : Pows) (passed : List (Arg V)) : Call V := { passed := passed, result := [wrap d (op passed)] }
   match k, args with
   | .unary, a0 :: rest =>
-    if unpackOk [a0] then .ok (call1 a0.dim (a0.unpacked :: rest)) else .error .assertion
+    if unpackOk [a0] then .ok (call1 op a0.dim (a0.unpacked :: rest)) else .error .assertion
   | .sample, s :: f :: [] =>      -- (sample, func): the *second* positional argument carries the dimension
-    if unpackOk [f] then .ok (call1 f.dim [s, f.unpacked]) else .error .assertion
+    if unpackOk [f] then .ok (call1 op f.dim [s, f.unpacked]) else .error .assertion
   | .addLike, a0 :: a1 :: rest =>
     if !unpackOk [a0, a1] then .error .assertion
     else if a0.dim ≠ a1.dim then .error .dimension
-    else .ok (call1 a0.dim (a0.unpacked :: a1.unpacked :: rest))
+    else .ok (call1 op a0.dim (a0.unpacked :: a1.unpacked :: rest))
   | .mulLike, a0 :: a1 :: rest =>
     if !unpackOk [a0, a1] then .error .assertion
-    else .ok (call1 (mul a0.dim a1.dim) (a0.unpacked :: a1.unpacked :: rest))
+    else .ok (call1 op (mul a0.dim a1.dim) (a0.unpacked :: a1.unpacked :: rest))
   | .divLike, a0 :: a1 :: rest =>
     if !unpackOk [a0, a1] then .error .assertion
-    else .ok (call1 (div a0.dim a1.dim) (a0.unpacked :: a1.unpacked :: rest))
+    else .ok (call1 op (div a0.dim a1.dim) (a0.unpacked :: a1.unpacked :: rest))
   | .laplace, a0 :: a1 :: rest =>
     if !unpackOk [a0, a1] then .error .assertion
-    else .ok (call1 (div a0.dim (pow a1.dim 2)) (a0.unpacked :: a1.unpacked :: rest))
+    else .ok (call1 op (div a0.dim (pow a1.dim 2)) (a0.unpacked :: a1.unpacked :: rest))
   | .sqrt, a0 :: rest =>
-    if unpackOk [a0] then .ok (call1 (pow a0.dim (1/2)) (a0.unpacked :: rest)) else .error .assertion
+    if unpackOk [a0] then .ok (call1 op (pow a0.dim (1/2)) (a0.unpacked :: rest)) else .error .assertion
   | .setitem, a0 :: i :: a2 :: rest =>
     if !unpackOk [a0, a2] then .error .assertion
     else if a0.dim ≠ a2.dim then .error .dimension
-    else .ok (call1 a0.dim (a0.unpacked :: i :: a2.unpacked :: rest))
+    else .ok (call1 op a0.dim (a0.unpacked :: i :: a2.unpacked :: rest))
   | .powLike, a0 :: e :: rest =>
     if !unpackOk [a0] then .error .assertion
     else match expo e with
       | none => .error .type
-      | some x => .ok (call1 (pow a0.dim x) (a0.unpacked :: e :: rest))
+      | some x => .ok (call1 op (pow a0.dim x) (a0.unpacked :: e :: rest))
   | .powLike, [a0] => if !unpackOk [a0] then .error .assertion else .error .index   -- `args[1]` is looked up after unpacking
   | .unaryOp, a0 :: rest =>
     if unpackOk [a0] then .ok { passed := a0.unpacked :: rest, result := [.plain (op (a0.unpacked :: rest))] } else .error .assertion
@@ -245,7 +248,7 @@ def apply {V} (k : Kind) (op : List (Arg V) → V) (tuple : V → List V) (expo 
   | .curvature, a0 :: rest =>
     -- the pinned tree passed `*args` (the still wrapped quantity) on to the wrapped function, which then
     -- dispatched again without end; repaired upstream to pass the unpacked payload, which is what is modelled
-    if unpackOk [a0] then .ok (call1 (pow a0.dim (-1)) (a0.unpacked :: rest)) else .error .assertion
+    if unpackOk [a0] then .ok (call1 op (pow a0.dim (-1)) (a0.unpacked :: rest)) else .error .assertion
   | .evaluate, as =>
     if !unpackOk as then .error .assertion
     else
@@ -255,14 +258,14 @@ def apply {V} (k : Kind) (op : List (Arg V) → V) (tuple : V → List V) (expo 
     if !unpackOk as then .error .assertion
     else match as.map Arg.dim with
       | [] => .error .assertion
-      | d :: ds => .ok (call1 (ds.foldl mul d) (as.map Arg.unpacked))
+      | d :: ds => .ok (call1 op (ds.foldl mul d) (as.map Arg.unpacked))
   | .attribute, as =>
     if !unpackOk as then .error .assertion
     else .ok { passed := as.map Arg.unpacked, result := [.plain (op (as.map Arg.unpacked))] }
   | .interp, x :: xp :: fp :: rest =>
     if !unpackOk [x, xp, fp] then .error .assertion
     else if x.dim ≠ xp.dim then .error .dimension
-    else .ok (call1 fp.dim (x.unpacked :: xp.unpacked :: fp.unpacked :: rest))
+    else .ok (call1 op fp.dim (x.unpacked :: xp.unpacked :: fp.unpacked :: rest))
   | _, _ => .error .index
 
 /-- `__stack_like`: the first positional argument is a sequence -/
@@ -274,20 +277,22 @@ def applyStack {V} (op : List (Arg V) → List (Arg V) → V) (seq rest : List (
       if as.any (fun a => a.dim ≠ a0.dim) then .error .dimension
       else .ok (wrap a0.dim (op (seq.map Arg.unpacked) rest), seq.map Arg.unpacked)
 
-/-- `__locate`: geom, coords, tol, maxdist (the last two may be absent = `None`) -/
+/-- `dim == Dimensionless and x is None or dim == dimgeom` for an optional operand (`none`: the argument is `None`) -/
+def okOpt (g : Pows) : Option (Pows × Bool) → Bool
+  | none => true
+  | some (d, _) => decide (d = g)
+
+def optIsQ : Option (Pows × Bool) → Bool
+  | none => false
+  | some (_, q) => q
+
+/-- `__locate`: geom, coords, tol, maxdist (the last two may be `None`); each operand: (dimension, is-a-Quantity) -/
 def applyLocate (geom coords : Pows × Bool) (tol maxdist : Option (Pows × Bool)) : Except Err Unit :=
-  -- each operand: (dimension, is-a-Quantity); an absent operand is `None` and unpacks as dimensionless
-  let isq := geom.2 || coords.2 || (tol.map (·.2)).getD false || (maxdist.map (·.2)).getD false
-  if !isq then .error .assertion
+  if !(geom.2 || coords.2 || optIsQ tol || optIsQ maxdist) then .error .assertion
   else if geom.1 ≠ coords.1 then .error .dimension
-  else
-    let okOpt (o : Option (Pows × Bool)) : Bool :=
-      match o with
-      | none => true                          -- `dim == Dimensionless and x is None`
-      | some (d, _) => decide (d = geom.1)
-    if !okOpt tol then .error .dimension
-    else if !okOpt maxdist then .error .dimension
-    else .ok ()
+  else if !okOpt geom.1 tol then .error .dimension
+  else if !okOpt geom.1 maxdist then .error .dimension
+  else .ok ()
 
 /-! ### the trusted classification: which homogeneity law does a dispatched function obey -/
 
@@ -380,6 +385,49 @@ def lawOf : String → Option Law
   | "nutils.sample.Sample.integral" | "nutils.sample.Sample.bind" => some .linearSecond
   | _ => none
 
+
+/-! ### change of reference units (the meaning of the laws) -/
+
+/-- A change of reference units: every dimension `d` gets a scale factor `σ d` (a homomorphism from the dimension
+group, stated on canonical exponent vectors), which acts on payloads by `smul`. -/
+structure Scaling (S V : Type) where
+  one : S
+  mul : S → S → S
+  div : S → S → S
+  spow : S → Rat → S
+  smul : S → V → V
+  σ : Pows → S
+  one_smul : ∀ v, smul one v = v
+  σ_one : σ [] = one
+  σ_mul : ∀ a b, Canon a → Canon b → σ (C20.mul a b) = mul (σ a) (σ b)
+  σ_div : ∀ a b, Canon a → Canon b → σ (C20.div a b) = div (σ a) (σ b)
+  σ_pow : ∀ a q, Canon a → σ (C20.pow a q) = spow (σ a) q
+
+/-- the same quantity expressed in the new reference units -/
+def Scaling.rescale {S V} (sc : Scaling S V) : Arg V → Arg V
+  | .q d v => .q d (sc.smul (sc.σ d) v)
+  | .plain v => .plain v
+
+/-- what it means for a wrapped function to obey a law (for the laws whose handlers take one or two checked operands) -/
+def LawHolds {S V} (sc : Scaling S V) (expo : Arg V → Option Rat) : Law → (List (Arg V) → V) → Prop
+  | .preserving, op => ∀ s x rest, op (.plain (sc.smul s x) :: rest) = sc.smul s (op (.plain x :: rest))
+  | .additive, op => ∀ s x y rest, op (.plain (sc.smul s x) :: .plain (sc.smul s y) :: rest) = sc.smul s (op (.plain x :: .plain y :: rest))
+  | .bilinear, op => ∀ s t x y rest, op (.plain (sc.smul s x) :: .plain (sc.smul t y) :: rest) = sc.smul (sc.mul s t) (op (.plain x :: .plain y :: rest))
+  | .quotient, op => ∀ s t x y rest, op (.plain (sc.smul s x) :: .plain (sc.smul t y) :: rest) = sc.smul (sc.div s t) (op (.plain x :: .plain y :: rest))
+  | .quotient2, op => ∀ s t x y rest, op (.plain (sc.smul s x) :: .plain (sc.smul t y) :: rest) = sc.smul (sc.div s (sc.spow t 2)) (op (.plain x :: .plain y :: rest))
+  | .root2, op => ∀ s x rest, op (.plain (sc.smul s x) :: rest) = sc.smul (sc.spow s (1/2)) (op (.plain x :: rest))
+  | .power, op => ∀ s x e rest q, expo e = some q → op (.plain (sc.smul s x) :: e :: rest) = sc.smul (sc.spow s q) (op (.plain x :: e :: rest))
+  | .invariant, op => ∀ s x rest, op (.plain (sc.smul s x) :: rest) = op (.plain x :: rest)
+  | .comparison, op => ∀ s x y rest, op (.plain (sc.smul s x) :: .plain (sc.smul s y) :: rest) = op (.plain x :: .plain y :: rest)
+  | .inverse, op => ∀ s x rest, op (.plain (sc.smul s x) :: rest) = sc.smul (sc.spow s (-1)) (op (.plain x :: rest))
+  | _, _ => True
+
+/-- the laws covered by `units_invariance`, with the number of leading operands that carry a dimension -/
+def lawArity : Law → Option Nat
+  | .preserving | .root2 | .invariant | .inverse | .power => some 1
+  | .additive | .bilinear | .quotient | .quotient2 | .comparison => some 2
+  | _ => none
+
 /-- names of the handler functions in `SI.py`; two handlers are called `__evaluate`, told apart by their
 order in the source (`rank`) -/
 def handlerKind (handler : String) (rank : Nat) : Option Kind :=
@@ -429,6 +477,7 @@ inductive PErr
   | exists_     -- ValueError: unit is already defined
   | collision   -- ValueError: unit collides with ...
   | inexact     -- (model only) irrational root of a value: the model gives no value
+  | range       -- (model only) exponent beyond ±4096: outside the modelled range (floats overflow long before)
   deriving DecidableEq, Repr
 
 def numChars : List Char := ['+', '-', '0', '1', '2', '3', '4', '5', '6', '7', '8', '9', '.']
@@ -456,7 +505,10 @@ def readNum (s : List Char) : Option Rat :=
 
 /-- integer root: `some r` with `r ^ n = m`, if it exists -/
 def natRoot (m n : Nat) : Option Nat :=
-  if n = 0 then none else
+  if n = 0 then none
+  else if m ≤ 1 then some m
+  else if m.log2 < n then none      -- 2 ^ n > m: no integer root besides 0 and 1
+  else
   -- bisection on [0, m]
   let rec go (fuel lo hi : Nat) : Nat :=
     match fuel with
@@ -473,6 +525,7 @@ def natRoot (m n : Nat) : Option Nat :=
 def ratPow (v p : Rat) : Except PErr Rat :=
   if p = 0 then .ok 1
   else if v = 0 then (if p < 0 then .error .zeroDiv else .ok 0)
+  else if p.num.natAbs > 4096 then .error .range
   else if p.den = 1 then .ok (v ^ p.num)
   else if v < 0 then .error .inexact
   else
